@@ -363,6 +363,7 @@ struct Obs
     long capacity{-1}; // -1 when the container has none (ut_map, ut_set)
 };
 
+inline bool g_dump_free_iters = false; // white-box dump: print stale order-list iterators of free slots (see adapters.hpp)
 constexpr int MAXK = 8; // max key universe (keys are 1..nkeys)
 
 struct ScanEnt
